@@ -756,6 +756,13 @@ class Duration(metaclass=_DurationMeta):
             #  Noda Time has the following comment:
             #  "No precondition here, as we cover a wider range than Int64 ticks can handle..."
             #  If this ever changes, the test_factory_methods_out_of_range test will need changed too.
+            # Python ints are unbounded (unlike Int64), so the range does need checking here.
+            _Preconditions._check_argument_range(
+                "ticks",
+                ticks,
+                cls._MIN_DAYS * PyodaConstants.TICKS_PER_DAY,
+                (cls._MAX_DAYS + 1) * PyodaConstants.TICKS_PER_DAY - 1,
+            )
             days, tick_of_day = _TickArithmetic.ticks_to_days_and_tick_of_day(ticks)
             return cls.__ctor(
                 days=days, nano_of_day=tick_of_day * PyodaConstants.NANOSECONDS_PER_TICK, no_validation=True
